@@ -19,7 +19,8 @@ def excOf (j : Json) : Option Exc :=
 
 def genOf (j : Json) : UserGen :=
   { tag := jN (jF j "tag"), setupExc := excOf (jF j "setup"), yields := jN (jF j "yields"),
-    cleanupExc := excOf (jF j "cleanup"), value := jN (jF j "value") }
+    cleanupExc := excOf (jF j "cleanup"), value := jN (jF j "value"),
+    returns := match jTag (jF j "returns") with | "truthy" => .truthy | "falsy" => .falsy | _ => .none }
 
 def bodyOf (j : Json) : BodyOut :=
   match jTag j with
